@@ -241,7 +241,7 @@ func hasBoundVar(s string) bool {
 	// tokenise on parens/spaces
 	f := strings.FieldsFunc(s, func(r rune) bool { return r == '(' || r == ')' || r == ' ' })
 	for _, w := range f {
-		if boundVarNames[w] || strings.HasPrefix(w, "q_") {
+		if boundVarNames[w] || strings.HasPrefix(w, "q_") || strings.HasPrefix(w, "sfp_") || strings.HasPrefix(w, "Hp_") {
 			return true
 		}
 	}
@@ -307,6 +307,9 @@ func runSolvers(script string, dir, tag string, timeoutS int, which []string) (s
 			case "sat":
 				st = "sat"
 			}
+			if strings.HasPrefix(first, "(error") && !strings.Contains(first, "model is not available") {
+				st = "error" // ill-formed query: a generator bug, never evidence about the code
+			}
 			ch <- ans{st, s.name, o, time.Since(start).Milliseconds()}
 		}(s)
 	}
@@ -322,7 +325,24 @@ func runSolvers(script string, dir, tag string, timeoutS int, which []string) (s
 			last = a
 		}
 	}
+	if last.status == "error" {
+		return "error", last.solver, last.out, last.ms
+	}
 	return "noanswer", last.solver, last.out, last.ms
+}
+
+// prepareSolve does, sequentially, everything that touches the generator's (and the
+// global) type tables, so that the parallel solving phase only reads.
+func prepareSolve(g *Gen) {
+	for _, o := range g.obls {
+		if o.getv == nil {
+			o.getv = inputValueTerms(g, o)
+			if o.getv == nil {
+				o.getv = []string{}
+			}
+		}
+	}
+	g.sliceLines(0, "", false)
 }
 
 // solveAll discharges the obligations of a generator in parallel.
@@ -389,7 +409,7 @@ func solveOne(g *Gen, o *Obligation, dir, tag string, timeoutS int) *Result {
 		r.Solver = "trivial"
 		return r
 	}
-	getv := inputValueTerms(g, o)
+	getv := o.getv
 	script := g.script(o, nil, getv)
 	r.Script = script
 	if len(script) > 4<<20 {
@@ -414,6 +434,10 @@ func solveOne(g *Gen, o *Obligation, dir, tag string, timeoutS int) *Result {
 	// stage 1: z3-new alone, short limit; stage 2: full portfolio
 	status, solver, out, ms := runSolvers(script, dir, tag, 3, []string{"z3-new"})
 	ms += r.Ms
+	if status == "error" {
+		r.Status, r.Solver, r.Ms, r.Raw = "engine-error", solver, ms, out
+		return r
+	}
 	if status == "noanswer" {
 		which := []string{"z3-new", "cvc5"}
 		if !scriptQuantified(script) && thoroughTier {
